@@ -136,6 +136,7 @@ def gen_unit(rng, uid, opts):
     if root[0] == "i":
         root = ("i", min(range(len(u.ifaces)), key=lambda j: u.ifaces[j]["impl"]))
     force_arg = set()
+    force_field = set()
     needed.append(root)
     allow_err = opts.get("err", True)
     while needed:
@@ -144,6 +145,8 @@ def gen_unit(rng, uid, opts):
             continue
         k, i = t
         x = rng.random()
+        if t in force_field:
+            x = p_fn + 0.27 + 0.001        # the branch that makes it a field of a later struct
         if k in ("v", "p") and t in force_arg:
             add_item({"kind": "arg", "outs": [t], "deps": []})
             continue
@@ -190,7 +193,7 @@ def gen_unit(rng, uid, opts):
                 if pkg_level(pm["pkg"]) != pkg_level(st["pkg"]):
                     add_item({"kind": "arg", "outs": [t], "deps": []})
                     continue
-                byptr = rng.random() < 0.5
+                byptr = rng.random() < 0.5 or t in force_field
                 fname = "G%d%s" % (i, k)
                 if not any(f[0] == fname for f in pm["fields"]):
                     pm["fields"].append((fname, t))
@@ -214,6 +217,11 @@ def gen_unit(rng, uid, opts):
             elif x < 0.6:
                 if t == root and rng.random() < opts.get("p_conc_arg", 0.0):
                     force_arg.add(conc)
+                elif conc[0] == "p" and conc not in src and ("v", conc[1]) not in src and rng.random() < opts.get("p_bind_fieldptr", 0.15):
+                    # the bound pointer type is the pointer-to-field that FieldsOf through a pointer provides: ask for the
+                    # value form first and make it a field selected through a pointer
+                    force_field.add(("v", conc[1]))
+                    needed.insert(0, ("v", conc[1]))
                 add_item({"kind": "bind", "outs": [t], "deps": [conc], "conc": conc, "pkg": d["pkg"]})
             elif x < 0.75:
                 add_item({"kind": "ivalue", "outs": [t], "deps": [], "conc": conc, "pkg": d["pkg"]})
@@ -265,6 +273,21 @@ def gen_unit(rng, uid, opts):
                             "fname": "Gb", "pkg": "liba", "id": new_id()})
             src[("v", ip + 1)] = src[("p", ip + 1)] = len(u.items) - 1
             nS = len(u.structs)
+    # a field reached through a pointer provides F and *F: let one provider take both, in either order (the pointer must
+    # alias the field of the struct whichever form was selected first)
+    for it in list(u.items):
+        if it["kind"] == "field" and len(it["outs"]) == 2 and rng.random() < opts.get("p_both_forms", 0.5):
+            fv, fp = it["outs"]
+            for c in u.items:
+                if c["kind"] == "func" and fv in c["deps"] and fp not in c["deps"] and not c.get("variadic"):
+                    k = c["deps"].index(fv)
+                    c["deps"].insert(k + 1 if rng.random() < 0.7 else k, fp)
+                    break
+                if c["kind"] == "struct" and fv in c["deps"] and fp not in c["deps"]:
+                    st = u.structs[c["struct"]]
+                    st["fields"].append(("F%d" % len(st["fields"]), fp))
+                    c["deps"].append(fp)
+                    break
     # --- sets ---------------------------------------------------------------------------------
     arg_items = [n for n, it in enumerate(u.items) if it["kind"] == "arg"]
     other = [n for n, it in enumerate(u.items) if it["kind"] != "arg"]
@@ -650,8 +673,18 @@ def materialise(prog):
                 pname, imports_for(prog, used, pkg, ["fmt", "github.com/google/wire", MOD + "/wtrace"]),
                 "\n\n".join(body)) + "\nvar _ = fmt.Sprint\nvar _ = wtrace.D\nvar _ wire.ProviderSet\n\n// Anchor lets drivers import this package unconditionally.\nvar Anchor = 0\n"
         if inj_body:
-            files["%s/wire.go" % pdir] = "//go:build wireinject\n// +build wireinject\n\npackage %s\n\n%s\n%s\n" % (
-                pname, imports_for(prog, inj_used, pkg, ["github.com/google/wire"]), "\n\n".join(inj_body))
+            nfiles = getattr(prog, "inj_files", 1)
+            if nfiles <= 1 or len(inj_body) < 2:
+                files["%s/wire.go" % pdir] = "//go:build wireinject\n// +build wireinject\n\npackage %s\n\n%s\n%s\n" % (
+                    pname, imports_for(prog, inj_used, pkg, ["github.com/google/wire"]), "\n\n".join(inj_body))
+            else:
+                # the injectors of the package spread over several files (every file imports everything and says so)
+                anchors = ["var _ = %s.Anchor" % prog.qual(q) for q in sorted(inj_used) if q != pkg] + ["var _ wire.ProviderSet"]
+                for k in range(min(nfiles, len(inj_body))):
+                    part = inj_body[k::nfiles]
+                    fname = ["wire.go", "a_wire.go", "z_inject.go", "m_wire.go"][k % 4] if k < 4 else "wire%d.go" % k
+                    files["%s/%s" % (pdir, fname)] = "//go:build wireinject\n// +build wireinject\n\npackage %s\n\n%s\n%s\n\n%s\n" % (
+                        pname, imports_for(prog, inj_used, pkg, ["github.com/google/wire"]), "\n".join(anchors), "\n\n".join(part))
         if inj_body and not body:
             files["%s/%s.go" % (pdir, pkg)] = "package %s\n\nvar Anchor = 0\n" % pname
     return files
